@@ -158,6 +158,9 @@ func r18load(c *core.Ctx) {
 	_ = fn
 	r18loadX(c, R)
 	// main: GetConfiguration dominates every read; no store into the configuration
+	if mainUnreadable(c, R) {
+		return
+	}
 
 	mainFn := mustFunc(c, pMain, "main")
 	mp := core.NewPather(mainFn)
@@ -196,6 +199,9 @@ func r18load(c *core.Ctx) {
 func r18flow(c *core.Ctx, byTag map[string]string) {
 	const R = "R18.flow"
 	c.Rule(R, "every procedure argument and loop bound in main is the field of its documented key (both modes)")
+	if mainUnreadable(c, R) {
+		return
+	}
 	mainFn := mustFunc(c, pMain, "main")
 	p := core.NewPather(mainFn)
 	gc := core.CallsTo(mainFn, pStg+".Conf.GetConfiguration")
@@ -455,6 +461,9 @@ func r18mode(c *core.Ctx) {
 		}
 	}
 	// main: procedures only under mode 1/2
+	if mainUnreadable(c, R) {
+		return
+	}
 	mainFn := mustFunc(c, pMain, "main")
 	mp := core.NewPather(mainFn)
 	gm := core.CallsTo(mainFn, pStg+".GetMode")
